@@ -70,6 +70,16 @@ def concrete(inp):
             db = DiffusionCurve(mixture=mix, membrane_name="m", feed_temperature=T, feed_compositions=[comp], partial_fluxes=[(0.3, 0.01)], permeances=[ps])
             if not (close(db.permeances[0][0].value, P1, 1e-9) and close(db.permeances[0][1].value, P2, 1e-9) and db.permeances[0][0].units == Units.kg_m2_h_kPa):
                 bad.append("%s: curve given both fluxes and permeances in %s exposes %r %s" % (name, units, db.permeances[0][0].value, db.permeances[0][0].units))
+            # points of one curve supplied in different units
+            for other in (Units.kg_m2_h_kPa, Units.SI, Units.GPU):
+                if other == units:
+                    continue
+                qs = (pv.Permeance(P1 * 1.5).convert(other, mix.first_component), pv.Permeance(P2 * 0.5).convert(units, mix.second_component))
+                comp2 = mixmod.Composition(min(0.99, x * 0.5 + 0.3), "weight")
+                dm = DiffusionCurve(mixture=mix, membrane_name="m", feed_temperature=T, feed_compositions=[comp, comp2], permeances=[ps, qs])
+                gotm = [dm.permeances[0][0].value, dm.permeances[0][1].value, dm.permeances[1][0].value, dm.permeances[1][1].value]
+                if not all(close(g, w_, 1e-9) for g, w_ in zip(gotm, (P1, P2, P1 * 1.5, P2 * 0.5))):
+                    bad.append("%s: points supplied in %s and %s/%s are exposed as %r, expected %r" % (name, units, other, units, [float(g) for g in gotm], (P1, P2, P1 * 1.5, P2 * 0.5)))
             back = DiffusionCurve(mixture=mix, membrane_name="m", feed_temperature=T, feed_compositions=[comp], partial_fluxes=dp.partial_fluxes)
             if not (close(back.permeances[0][0].value, P1, 1e-9) and close(back.permeances[0][1].value, P2, 1e-9)):
                 bad.append("%s: re-inversion gives %r" % (name, back.permeances[0]))
@@ -159,15 +169,20 @@ def from_permeances(job):
     with Patches() as pt:
         build.stub_thermo(pt, fs.mix)
         build.assume_validator(pt)
-        for units in (Units.kg_m2_h_kPa, Units.SI, Units.GPU):
-            tag = "C09/from_permeances/%s" % {"kg/(m2*h*kPa)": "kg"}.get(units, units)
+        short = lambda u: {"kg/(m2*h*kPa)": "kg"}.get(u, u)
+        # one unit for the whole curve, and curves whose points (and components) come in different units
+        for units, units_b in ((Units.kg_m2_h_kPa, None), (Units.SI, None), (Units.GPU, None),
+                               (Units.kg_m2_h_kPa, Units.SI), (Units.SI, Units.GPU), (Units.GPU, Units.kg_m2_h_kPa)):
+            tag = "C09/from_permeances/%s" % short(units) + ("" if units_b is None else "+" + short(units_b))
+            ua = (units, units) if units_b is None else (units, units_b)      # point 0: (component 1, component 2)
+            ub = (units, units) if units_b is None else (units_b, units)      # point 1
 
             def run():
                 comps = [build.comp(fs.x, "weight"), build.comp(x2, "molar")]
-                perms = [(build.perm(fs.P1, units), build.perm(fs.P2, units)), (build.perm(Q1, units), build.perm(Q2, units))]
+                perms = [(build.perm(fs.P1, ua[0]), build.perm(fs.P2, ua[1])), (build.perm(Q1, ub[0]), build.perm(Q2, ub[1]))]
                 dc = DiffusionCurve(mixture=fs.mix, membrane_name="m", feed_temperature=fs.T, feed_compositions=comps, permeances=perms)
                 back = DiffusionCurve(mixture=fs.mix, membrane_name="m", feed_temperature=fs.T, feed_compositions=comps, partial_fluxes=dc.partial_fluxes)
-                perms2 = [(build.perm(fs.P1, units), build.perm(fs.P2, units)), (build.perm(Q1, units), build.perm(Q2, units))]
+                perms2 = [(build.perm(fs.P1, ua[0]), build.perm(fs.P2, ua[1])), (build.perm(Q1, ub[0]), build.perm(Q2, ub[1]))]
                 both = DiffusionCurve(mixture=fs.mix, membrane_name="m", feed_temperature=fs.T, feed_compositions=comps,
                                       partial_fluxes=[(real("J1a"), real("J2a")), (real("J1b"), real("J2b"))], permeances=perms2)
                 return dc, back, both
@@ -181,9 +196,9 @@ def from_permeances(job):
                 if not job.feasible(cs):
                     continue
                 got += 1
-                kg1 = lambda v: v * factor(units, c1.molecular_weight) / factor(Units.kg_m2_h_kPa, c1.molecular_weight)
-                kg2 = lambda v: v * factor(units, c2.molecular_weight) / factor(Units.kg_m2_h_kPa, c2.molecular_weight)
-                want = [(kg1(fs.P1.t), kg2(fs.P2.t)), (kg1(Q1.t), kg2(Q2.t))]
+                kg1 = lambda v, u: v * factor(u, c1.molecular_weight) / factor(Units.kg_m2_h_kPa, c1.molecular_weight)
+                kg2 = lambda v, u: v * factor(u, c2.molecular_weight) / factor(Units.kg_m2_h_kPa, c2.molecular_weight)
+                want = [(kg1(fs.P1.t, ua[0]), kg2(fs.P2.t, ua[1])), (kg1(Q1.t, ub[0]), kg2(Q2.t, ub[1]))]
                 pps = [fs.pp(fs.T.t, fs.x.t, "weight"), fs.pp(fs.T.t, x2.t, "molar")]
                 for i in range(2):
                     job.prove("%s/exposed_in_kg/p%d" % (tag, i), cs, [lift(dc.permeances[i][0].value) != want[i][0], lift(dc.permeances[i][1].value) != want[i][1]],
